@@ -183,9 +183,16 @@ func CaseSeed(seed int64, property string, index int) int64 {
 }
 
 // RunCase executes one case of a monitor in this process (no isolation).
+// BeforeCase, when set, prepares process-wide generator state for a case (it must be a pure
+// function of the case's identity).
+var BeforeCase func(c *Case)
+
 func RunCase(m *Monitor, tier string, seed int64, index int) CaseResult {
 	res := CaseResult{Index: index}
 	c := &Case{Property: m.ID, Tier: tier, Seed: seed, Index: index, R: rand.New(rand.NewSource(CaseSeed(seed, m.ID, index))), res: &res}
+	if BeforeCase != nil {
+		BeforeCase(c)
+	}
 	m.Run(c)
 	h := sha256.New()
 	for _, p := range c.hasher {
